@@ -228,12 +228,15 @@ func runDir(o *vrt.Obs, p params) {
 			}
 		}
 	}
-	for d := 0; d < 2; d++ {
+	for dm := 0; dm < 4; dm++ {
+		d, silent := dm%2, dm >= 2
 		for k := int64(p.Shard); k <= n[d]; k += int64(p.Shards) {
-			what := fmt.Sprintf("directory mailboxes, scenario %d, cut after %d of %d bytes in direction %d", p.Scenario, k, n[d], d)
-			one(what, func(w *dirWorld) b2fx.Result { return w.session(vpipe.Plan{CutDir: d, CutAt: k}, "", 0, 0) })
+			what := fmt.Sprintf("directory mailboxes, scenario %d, cut after %d of %d bytes in direction %d (buffered link: %v)", p.Scenario, k, n[d], d, silent)
+			one(what, func(w *dirWorld) b2fx.Result {
+				return w.session(vpipe.Plan{CutDir: d, CutAt: k, CutSilent: silent}, "", 0, 0)
+			})
 			o.Count("dir_cut_positions", 1)
-			o.Sig("dir s%d d%d k%d", p.Scenario, d, k)
+			o.Sig("dir s%d d%d k%d %v", p.Scenario, d, k, silent)
 		}
 	}
 	if p.Shard == 0 {
